@@ -89,6 +89,8 @@ type Sig struct {
 type World struct {
 	Checks []CheckCfg `json:"checks"`
 	Pdmarc bool       `json:"pdmarc"`
+	Host   string     `json:"hostname"` // the pipeline's hostname = authserv-id
+	Forged []string   `json:"forged"`   // Authentication-Results field values the client put in
 	Conn   string     `json:"conn"`   // tcp4 | tcp6 | unix | local
 	Helo   string     `json:"helo"`   // HELO name
 	Sender string     `json:"sender"` // MAIL FROM address, "" = null reverse-path
@@ -124,6 +126,7 @@ type Out struct {
 	Delivered bool      `json:"delivered"`
 	Err       string    `json:"err"`
 	ArRaw     string    `json:"arRaw"`
+	Foreign   int       `json:"foreign"` // Authentication-Results fields under another authserv-id
 	Queries   []string  `json:"queries"`
 }
 
@@ -488,6 +491,9 @@ func renderConfig(w World) string {
 
 func (h *harness) pipeline(w World) *pipeRes {
 	txt := renderConfig(w)
+	if w.Host == "" {
+		h.t.Fatalf("row without hostname")
+	}
 	if pr, ok := h.pipes[txt]; ok {
 		return pr
 	}
@@ -501,7 +507,7 @@ func (h *harness) pipeline(w World) *pipeRes {
 		pr.err = err
 	} else {
 		p.Resolver = ctxResolver{}
-		p.Hostname = "mx.verif.example"
+		p.Hostname = w.Host
 		p.Log = log.Logger{Out: log.NopOutput{}}
 		pr.p = p
 	}
@@ -522,12 +528,39 @@ func normName(s string) string {
 	return strings.ToLower(strings.TrimSuffix(a, "."))
 }
 
-func parseAR(vals []string) ([]AREntry, string) {
+// authServID returns the authserv-id of an Authentication-Results field value
+// (RFC 8601 2.2: authserv-id [ CFWS authres-version ] before the first ";").
+func authServID(v string) string {
+	head := v
+	if i := strings.IndexByte(v, ';'); i >= 0 {
+		head = v[:i]
+	}
+	f := strings.Fields(head)
+	if len(f) == 0 {
+		return ""
+	}
+	return f[0]
+}
+
+// parseAR returns the entries of the fields that bear the server's own authserv-id
+// (compared case-insensitively), top to bottom, and the number of other fields.
+func parseAR(vals []string, own string) ([]AREntry, int, string) {
 	out := []AREntry{}
+	foreign := 0
 	for _, v := range vals {
+		if !strings.EqualFold(authServID(v), own) {
+			foreign++
+			continue
+		}
+		if id := authServID(v); true {
+			// go-msgauth does not know the optional version: drop it before parsing
+			if i := strings.IndexByte(v, ';'); i >= 0 {
+				v = id + v[i:]
+			}
+		}
 		_, results, err := authres.Parse(v)
 		if err != nil {
-			return out, "unparsable Authentication-Results: " + err.Error()
+			return out, foreign, "unparsable Authentication-Results: " + err.Error()
 		}
 		for _, r := range results {
 			switch r := r.(type) {
@@ -542,7 +575,7 @@ func parseAR(vals []string) ([]AREntry, string) {
 			}
 		}
 	}
-	return out, ""
+	return out, foreign, ""
 }
 
 func (h *harness) zone(w World) map[string]mockdns.Zone {
@@ -624,6 +657,9 @@ func (h *harness) runRow(r Row) (o Out) {
 	for _, s := range w.Sigs {
 		raw.WriteString(h.sign.field(h.t, s.K, s.D, hdrText, w))
 	}
+	for _, f := range w.Forged {
+		raw.WriteString("Authentication-Results: " + f + "\r\n")
+	}
 	raw.WriteString(hdrText)
 	raw.WriteString("\r\n")
 	hdr, err := textproto.ReadHeader(bufio.NewReader(strings.NewReader(raw.String())))
@@ -685,7 +721,7 @@ func (h *harness) runRow(r Row) (o Out) {
 	}
 	o.ArRaw = strings.Join(s.arHdr, " || ")
 	var perr string
-	o.Ar, perr = parseAR(s.arHdr)
+	o.Ar, o.Foreign, perr = parseAR(s.arHdr, w.Host)
 	if perr != "" {
 		o.Err = perr
 		o.Ar = append(o.Ar, AREntry{M: "unparsable"})
